@@ -18,7 +18,9 @@ import (
 	"google.golang.org/grpc"
 	"google.golang.org/grpc/credentials"
 	"google.golang.org/grpc/metadata"
+	"google.golang.org/grpc/codes"
 	"google.golang.org/grpc/peer"
+	"google.golang.org/grpc/status"
 )
 
 func init() { suites["C13"] = suiteC13 }
@@ -202,6 +204,7 @@ func suiteC13(r *Run) {
 			tc = &testCreds{err: errors.New("cred failure")}
 		}
 		withPeer := rng.Chance(80)
+		handlerFails := rng.Chance(30) // the server answers with a non-OK status: the caller has still talked to that peer
 		var seenMD metadata.MD
 		var seenPeer *peer.Peer
 		handlerRan := 0
@@ -210,12 +213,18 @@ func suiteC13(r *Run) {
 			handlerRan++
 			seenMD, _ = metadata.FromIncomingContext(ctx)
 			seenPeer, _ = peer.FromContext(ctx)
+			if handlerFails {
+				return nil, status.Error(codes.NotFound, "scripted failure")
+			}
 			return &Msg{}, nil
 		}
 		svr.sstream = func(req *Msg, s grpchantesting.TestService_ServerStreamServer) error {
 			handlerRan++
 			seenMD, _ = metadata.FromIncomingContext(s.Context())
 			seenPeer, _ = peer.FromContext(s.Context())
+			if handlerFails {
+				return status.Error(codes.NotFound, "scripted failure")
+			}
 			return s.Send(&Msg{})
 		}
 		ch, trips, closeFn := tp.mk(svr)
@@ -256,7 +265,7 @@ func suiteC13(r *Run) {
 		cancel()
 		nTrips := trips()
 		closeFn()
-		c := map[string]interface{}{"transport": tp.name, "streaming": streaming, "creds": fmt.Sprintf("%+v", tc), "caller_md": mdArg(caller), "peer_option": withPeer, "caller_context_has_upstream_peer": foreign}
+		c := map[string]interface{}{"transport": tp.name, "streaming": streaming, "creds": fmt.Sprintf("%+v", tc), "caller_md": mdArg(caller), "peer_option": withPeer, "caller_context_has_upstream_peer": foreign, "handler_returns_NotFound": handlerFails}
 		r.Eval(fmt.Sprint("e2e", tp.name, streaming, tc != nil, mdArg(caller), withPeer, iter), tc != nil || withPeer)
 		r.Count("e2e:" + tp.name)
 		r.TracesOnImpl++
@@ -272,6 +281,9 @@ func suiteC13(r *Run) {
 				r.Violate("creds/error-swallowed", "an error from the credential fails the call", sprintf("%s: err=%v handler ran %d", tp.name, err, handlerRan), c, canonErr(err))
 			}
 			continue
+		}
+		if handlerFails && status.Code(err) == codes.NotFound && handlerRan == 1 {
+			err = nil // the scripted outcome
 		}
 		if err != nil || handlerRan != 1 {
 			r.Violate("creds/call-failed", "the call goes through", sprintf("%s streaming=%v: err=%v handler ran %d", tp.name, streaming, err, handlerRan), c, canonErr(err))
